@@ -29,6 +29,9 @@ func c09Scenario(seed uint64) *core.Scenario {
 	if r.Chance(1, 5) && len(sc.Program.Rules) > 1 {
 		ex.Removed = []string{sc.Program.Rules[r.Intn(len(sc.Program.Rules))].Name}
 	}
+	if r.Chance(1, 3) {
+		ex.SharedEngine, ex.SharedMaxCycle = true, uint64(r.Range(1, 4))
+	}
 	nt := r.Range(2, 4)
 	k := len(sc.Program.Rules)
 	exec := func(slot int, op string) ksim.KStep {
@@ -84,7 +87,7 @@ func runC09(c *Check, seed uint64, i int, tier string, st *core.Stats) {
 		st.AddNonTrivial(res.Conc.Trace)
 		ex, _ := ksim.ExtraOf(sc)
 		st.AddSample(map[string]interface{}{"grl": sc.GRL, "tasks": len(ex.Tasks), "source": ex.Source, "style": ex.Style, "yields": res.Conc.Yields,
-			"context_switches": res.Conc.Switches, "plan_prefix": prefix(res.Conc.Plan, 40), "scripts": scriptsOf(ex)}, 2)
+			"context_switches": res.Conc.Switches, "shared_engine": ex.SharedEngine, "plan_prefix": prefix(res.Conc.Plan, 40), "scripts": scriptsOf(ex)}, 2)
 	}
 	for _, v := range res.Violations {
 		st.Probes["violation."+v.Oracle]++
